@@ -314,6 +314,50 @@ def range_table(facts, which, cfgname="default"):
     return rows
 
 
+def named_range_table(facts, which, cfgname="default"):
+    """visit_range with a bound written as the name of a rule that is one numeric literal (RFC 8610 2.2.2.1: `byte = 0..max-byte`,
+    `max-byte = 255`): the verdict is that of the range with the literal written in place"""
+    fi = visitor_fn(facts, which, "visit_range")
+    rows = []
+
+    def ident(n):
+        return ("enum", "Identifier", {"ident": ("str", n), "socket": ("None",), "span": OPAQUE})
+
+    def named(n):
+        return ("enum", "Type2::Typename", {"ident": ident(n), "generic_args": ("None",), "span": OPAQUE})
+
+    def rule(n, t2):
+        tc = ("enum", "TypeChoice", {"type1": ("enum", "Type1", {"type2": t2, "operator": ("None",), "span": OPAQUE, "comments_after_type": ("None",)}),
+                                      "comments_before_type": ("None",), "comments_after_type": ("None",)})
+        return ("enum", "Rule::Type", {"rule": ("enum", "TypeRule", {"name": ident(n), "generic_params": ("None",), "is_type_choice_alternate": False,
+                                                                      "value": ("enum", "Type", {"type_choices": absint.MutList([tc]), "span": OPAQUE})}), "span": OPAQUE})
+    for kind in ("Uint", "Float"):
+        for shape in ("lo..U", "L..hi", "lo..hi"):
+            for incl in (True, False):
+                for (label, l, u, v) in [("v<l", 10, 20, 5), ("v=l", 10, 20, 10), ("l<v<u", 10, 20, 15), ("v=u", 10, 20, 20), ("v>u", 10, 20, 25)]:
+                    fl = kind == "Float"
+                    vv = float(v) if fl else v
+                    if which == "json":
+                        src_env = {"self.json": ("enum", "Value::Number", [json_number(vv)])}
+                    else:
+                        src_env = {"self.cbor": ("enum", "Value::Float", [vv]) if fl else ("enum", "Value::Integer", [v])}
+                    src_env["self.state.ctrl"] = ctrl_val(None)
+                    rules = absint.MutList([rule("lo", bound(kind, l)), rule("hi", bound(kind, u)), rule("other", bound(kind, 99))])
+                    src_env["self.state.cddl.rules"] = rules
+                    src_env["self.state.cddl"] = ("enum", "CDDL", {"rules": rules})
+                    env = {"lower": named("lo") if shape.startswith("lo") else bound(kind, l),
+                           "upper": named("hi") if shape.endswith("hi") else bound(kind, u), "is_inclusive": incl}
+                    r = Run(facts, which, cfgname, src_env, env)
+                    try:
+                        r.run(fi.node)
+                        verdict = "reject" if r.errors else "accept"
+                    except Unknown as e:
+                        verdict = "unknown: %s" % e
+                    rows.append({"bounds": "%s %s" % (kind, shape), "incl": incl, "point": label, "verdict": verdict,
+                                 "expected": "accept" if oracle_range(label, l, u, v, incl) else "reject", "line": fi.line, "file": fi.file})
+    return rows
+
+
 # --------------------------------------------------------------------------
 # occurrence table and the greedy loop of seq_match_entry
 # --------------------------------------------------------------------------
